@@ -168,6 +168,15 @@ class Model:
         accepted = ("CALL", "ALL", "DEFAULT") if event == "CALL" else ("SETATTR", "ALL")
         return [i for i in self.eff_invs(cls) if i.get("check_on", "CALL") in accepted]
 
+    def invs_around(self, cls: str, m: Dict[str, Any]) -> List[Dict[str, Any]]:
+        """The invariants evaluated before and after the operation ``m`` performed from outside on an instance of ``cls``."""
+        if m["kind"] == "pset" and self.invs_on(cls, "SETATTR"):
+            # ``instance.p = value`` is an attribute assignment: with attribute-set checking requested it runs inside the
+            # wrapped __setattr__ (a special method of the same object), whose invariants surround it; the setter is a
+            # nested operation on the object (C10: unchecked), cf. the same rule in the C03 oracle
+            return self.invs_on(cls, "SETATTR")
+        return self.invs_on(cls, "CALL") if self.wrapped_for_invariants(m) else []
+
     # -- definition-time verdicts ---------------------------------------------------------
     def class_rejection(self, cls: str) -> Optional[str]:
         """None if the class must be created; else "TypeError" / "ValueError" / "ambiguous"."""
@@ -326,7 +335,7 @@ class Model:
         pre, snaps, post = self.eff_pre(o, key), self.eff_snaps(o, key), self.eff_post(o, key)
         ids = [c["id"] for g in pre for c in g] + [c["id"] for c in post] + [i["id"] for i in self.eff_invs(cls)]
         exp.has_dups = len(set(ids)) != len(ids)
-        invs = self.invs_on(cls, "CALL") if self.wrapped_for_invariants(m) else []
+        invs = self.invs_around(cls, m)
         if not self._inv_phase(exp, invs, truth, evals):
             return exp
         if not self.expect_contracts(exp, m, mid, pre, snaps, post, truth, evals, body):
